@@ -61,9 +61,11 @@ var props = map[string]propCfg{
 	"C10": {quick: q(600, 8), thorough: th(15 * time.Minute)},
 	"C11": {quick: q(150, 8), thorough: th(20 * time.Minute)},
 	"C12": {quick: q(200, 8), thorough: th(20 * time.Minute)},
+	"C13": {quick: q(400, 8), thorough: th(15 * time.Minute)},
 	"C14": {quick: q(40, 8), thorough: th(20 * time.Minute)},
 	"C15": {quick: q(30, 8), thorough: th(20 * time.Minute)},
 	"C16": {quick: q(150, 8), thorough: th(20 * time.Minute)},
+	"C17": {quick: q(12, 8), thorough: th(30 * time.Minute), race: true},
 	"C18": {quick: q(1500, 8), thorough: th(15 * time.Minute)},
 	"C20": {quick: q(5, 8), thorough: th(30 * time.Minute)},
 }
